@@ -13,6 +13,8 @@ def stepC15 (_ : Unit) (ws : List String) : Unit × String :=
   let ws := match ws with
     | "nregp" :: r => "regp" :: r
     | "nregx" :: r => "regx" :: r
+    | "rregp" :: r => "regp" :: r      -- … through ptt.Register
+    | "rregx" :: r => "regx" :: r
     | _ => ws
   let out := match ws with
     | ["reg", cap, tk, ids, sc] =>
